@@ -11,7 +11,9 @@ import CpModel.Finalize
   st      - | s<code> | e<code> | r<code> | x | i
   body    <K>:<chunk>,<chunk>…   K in B S N L G F X Y;  chunk = b<hex> | t<cp.cp…> | n<hex>/<hex>… | r
   probe   - | <prio>:<act>:<once>   act = e<code> | r<code> | x | w<hex> (rewrite body) | s<code>
-  req     <method>,<ae>,<inm>,<im>,<ac>,<ranges>   ranges = N | E | a-b/a-b…
+  body    may be `shape|shape|…`: the value on the 1st, 2nd, … handler invocation
+  req     <method>,<ae>,<inm>,<im>,<ac>,<ranges>,<cc>,<t>   ranges = N | E | a-b/a-b…
+          cc = - | maxage<n> | nocache | pragma | nostore | badmaxage;  t = logical time (s) of the request
 
   Output: one record per request joined by ` | `:
     S=<code> CL=<n|N|None|?> D=<n> E=<clean|nonbytes|raised> ST=<0|1> CA=<0|1> CE=<0|1> CT=<base>/<charset|-> SRC=<src> GZ=<0|1>
@@ -43,6 +45,7 @@ def parseTools (s : String) : Option Tools :=
     | 'f' => some { t with flatten := true }
     | 's' => some { t with stream := true }
     | 'b' => some { t with errFails := true }
+    | 'j' => some { t with jsonOut := true }
     | _ => none) {}
 
 def parsePage (s : String) : Option (Option Body) :=
@@ -95,7 +98,7 @@ def parseChunk (s : String) : Option Chunk :=
     ((t.splitOn "/").mapM fun x => Proto.unhex? (if x == "" then "-" else x)).map .nested
   else none
 
-def parseShape (s : String) : Option Shape :=
+def parseShape1 (s : String) : Option Shape :=
   match s.splitOn ":" with
   | [k, rest] => do
     let cs ← ((rest.splitOn ",").filter (· ≠ "")).mapM parseChunk
@@ -111,6 +114,19 @@ def parseShape (s : String) : Option Shape :=
     else if k == "Y" then pure (.fileObjV (concat cs))
     else none
   | _ => none
+
+/-- `shape|shape|…`: the value on the 1st, 2nd, … invocation of the handler -/
+def parseShapes (s : String) : Option (Shape × List Shape) :=
+  match (s.splitOn "|").mapM parseShape1 with
+  | some (x :: xs) => some (x, xs)
+  | _ => none
+
+def parseCC (s : String) : Option CC :=
+  if s == "-" then some .none else if s == "nocache" then some .noCache
+  else if s == "pragma" then some .pragma else if s == "nostore" then some .noStore
+  else if s == "badmaxage" then some .badMaxAge
+  else if s.startsWith "maxage" then (s.drop 6).toString.toNat?.map .maxAge
+  else none
 
 def parseMethod (s : String) : Option Method :=
   if s == "GET" then some .get else if s == "HEAD" then some .head
@@ -149,10 +165,10 @@ def parseRanges (s : String) : Option (Option (List (Nat × Nat))) :=
 
 def parseReq (s : String) : Option Req :=
   match s.splitOn "," with
-  | [m, ae, inm, im, ac, rg] => do
+  | [m, ae, inm, im, ac, rg, cc, t] => do
     let (cs, d) ← parseAc ac
     pure { method := ← parseMethod m, ae := ← parseAe ae, inm := ← parseCond inm, im := ← parseCond im,
-           charsets := cs, dfltOnly := d, ranges := ← parseRanges rg }
+           charsets := cs, dfltOnly := d, ranges := ← parseRanges rg, cc := ← parseCC cc, now := ← t.toNat? }
   | _ => none
 
 def showCl : Option HVal → String
@@ -189,10 +205,11 @@ def step (line : String) : String :=
       let t0 ← parseTools tools
       let t : Tools := { t0 with probe := ← parseProbe probe }
       let pg ← parsePage page
-      let h : Handler := { shape := ← parseShape body, st := ← parseSt st, ct := ← parseCt ct,
+      let (sh, later) ← parseShapes body
+      let h : Handler := { shape := sh, later := later, st := ← parseSt st, ct := ← parseCt ct,
                            setCL := ← Proto.optNat? hcl, setStream := ← parseBool hstream }
       let rqs ← (reqs.splitOn ";").mapM parseReq
-      let obs := serveAll (pages pg) ⟨h, t⟩ rqs none
+      let obs := serveAll (pages pg) ⟨h, t⟩ rqs none 0
       pure (" | ".intercalate (obs.map showObs))
     r.getD "bad-op"
   | _ => "bad-op"
